@@ -59,16 +59,20 @@ def run_one(m):
             P = Program(repo=tmp)
         except Exception as e:
             return name, None, 'load error %s' % e
-        for rn in sorted(props.RULES):
+        import check
+        cache = {}
+        for pid in sorted(props.PROPS):
             try:
-                obs, _ = props.RULES[rn](P, 'quick')
+                obs, _, _, errors = check.evaluate(pid, 'quick', P, cache)
                 bad = [o for o in obs if not o.ok]
                 if bad:
-                    res[rn] = ['%s %s: %s' % (o.rule, o.site, o.detail[:100]) for o in bad]
+                    res[pid] = ['%s %s: %s' % (o.rule, o.site, o.detail[:100]) for o in bad]
+                elif errors:
+                    res[pid] = ['ANALYSIS-ERROR %s' % e for e in errors]
             except AnalysisError as e:
-                res[rn] = ['ANALYSIS-ERROR %s' % e]
+                res[pid] = ['ANALYSIS-ERROR %s' % e]
             except Exception as e:
-                res[rn] = ['CRASH %r' % e]
+                res[pid] = ['CRASH %r' % e]
         return name, res, None
     finally:
         shutil.rmtree(tmp, ignore_errors=True)
@@ -85,9 +89,20 @@ def main():
         if err:
             print('%-70s ERROR %s' % (name, err))
             continue
-        if res:
+        import re
+        own = re.search(r'(C\d\d)', name.split('/')[1]) if '/' in name else None
+        own = own.group(1) if own else None
+        flags = []
+        for pid in sorted(res):
+            tag = pid
+            if any(x.startswith('ANALYSIS-ERROR') or x.startswith('CRASH') for x in res[pid]):
+                tag += '(ERR)'
+            flags.append(tag)
+        hit = bool(res) and (own is None or own in res) and not (own and any(
+            x.startswith(('ANALYSIS-ERROR', 'CRASH')) for x in res.get(own, [])))
+        if hit:
             caught += 1
-        print('%-70s %s' % (name[:70], ' '.join(sorted(res)) if res else '-- MISSED --'))
+        print('%-66s %s %s' % (name[:66], 'ok  ' if hit else 'MISS', ' '.join(flags)))
         if verbose:
             for rn in sorted(res):
                 for line in res[rn][:3]:
